@@ -4,6 +4,9 @@ use std::time::Duration;
 use async_trait::async_trait;
 use log::info;
 use tokio::sync::mpsc::Sender;
+#[cfg(saito_verif)]
+use crate::core::util::verif::RwLock;
+#[cfg(not(saito_verif))]
 use tokio::sync::RwLock;
 
 use crate::core::consensus::golden_ticket::GoldenTicket;
